@@ -617,3 +617,35 @@ Definition dead_env_shm (rq eq : bool) : env :=
         (fun t => if eq then Some (80, 0) else if t <? 0 then None else Some (- D_ETIMEDOUT, t))
         (fun _ => Some (- D_ENOTCONN, 0))
         (- D_ENOTCONN) 0 (- D_ENOTCONN).
+
+(* ================================================================== PART 3: how long a dead socket-transport client
+   can hold up the server.  lib/ipc_socket.c: _finish_connecting (connect-on-send of the response / event channel):
+       do { res = connect(..); if (res == -1) { retry++; usleep(100000); } } while (res == -1 && retry < 10);
+   The two literals are not macros; the harness measures them on every run (library sleeps of the survivor server are
+   counted, the monitor compares the count with FC_RETRIES * FC_SLEEP_MS per failed send). *)
+Definition FC_RETRIES : Z := 10.
+Definition FC_SLEEP_MS : Z := 100.
+
+(* [conn_ok i]: does the i-th connect() succeed (oracle).  Result: (connected, ms slept); fuel = loop iterations *)
+Fixpoint finish_connecting (fuel : nat) (retry : Z) (conn_ok : Z -> bool) (slept : Z) : option (bool * Z) :=
+  match fuel with
+  | O => None
+  | S f =>
+    if conn_ok retry then Some (true, slept)
+    else
+      let retry' := retry + 1 in
+      let slept' := slept + FC_SLEEP_MS in
+      if retry' <? FC_RETRIES then finish_connecting f retry' conn_ok slept' else Some (false, slept')
+  end.
+
+(* the sends of one pass for a peer: one response per processed request (harness/h_ipcdeath.c's msg_process), each of
+   which runs _finish_connecting again while the channel is not connected (sock_name is only freed on success) *)
+Fixpoint stall_of_sends (n : nat) (conn_ok : nat -> Z -> bool) : option Z :=
+  match n with
+  | O => Some 0
+  | S m =>
+    match finish_connecting 10 0 (conn_ok m) 0, stall_of_sends m conn_ok with
+    | Some (_, ms), Some rest => Some (ms + rest)
+    | _, _ => None
+    end
+  end.
